@@ -459,7 +459,9 @@ func gen(c *h.Ctx, r *h.Rng, maxOps int) []string {
 				ops = append(ops, "commit")
 				inTx = false
 			}
-			ops = append(ops, "cleantomb")
+			// no CleanTombstones here: blocks that vanish make the next restart load m-mapped chunks and WAL
+			// segments below the last truncation (finding F30's domain, where the storage model is not exact)
+			ops = append(ops, "compact")
 		case k < 76:
 			if !withReopen {
 				continue
@@ -503,7 +505,7 @@ func main() {
 	}
 	maxOps := 40
 	if c.Tier == "thorough" {
-		maxOps = 120
+		maxOps = 60
 	}
 	for i := 0; i < c.N; i++ {
 		r := c.Rng.Fork()
